@@ -35,16 +35,17 @@ def programs(ctx):
     for e in ents:
         it, _ = jdfgen.validate(e["prog"])
         e["ntasks"] = len(it.order)
-    rnd = [e for e in jdfgen.random_programs(2000 + ctx.seed, 14 if ctx.quick else 400)
+    rnd = [e for e in jdfgen.random_programs(2000 + ctx.seed, 30 if ctx.quick else 400)
            if any(t.split(":")[0] in DATA_TAGS for t in e["tags"])]
-    return ents + rnd[:(8 if ctx.quick else 300)]
+    return ents + rnd[:(18 if ctx.quick else 300)]
 
 
 def configs(ctx):
     if ctx.quick:
         return [{"sched": "lfq", "cores": 4, "conc": 64}, {"sched": "ap", "cores": 1, "conc": 64},
                 {"sched": "ip", "cores": 4, "conc": 64, "noise": 7}, {"sched": "gd", "cores": 2, "conc": 1},
-                {"sched": "rnd", "cores": 4, "conc": 64, "noise": 3}, {"sched": "ltq", "cores": 3, "conc": 64}]
+                {"sched": "rnd", "cores": 4, "conc": 64, "noise": 3}, {"sched": "ltq", "cores": 3, "conc": 64},
+                {"sched": "spq", "cores": 4, "conc": 8, "noise": 11}, {"sched": "lhq", "cores": 2, "conc": 64}]
     out = []
     k = 0
     for s in ["ap", "gd", "ip", "lfq", "lhq", "ll", "llp", "ltq", "pbq", "rnd", "spq"]:
